@@ -2,6 +2,7 @@ use crate::plan::barriers::SATBBarrier;
 use crate::plan::concurrent::barrier::SATBBarrierSemantics;
 use crate::plan::concurrent::immix::ConcurrentImmix;
 use crate::plan::concurrent::Pause;
+use crate::plan::mutator_context::common_release_func;
 use crate::plan::mutator_context::create_allocator_mapping;
 use crate::plan::mutator_context::create_space_mapping;
 
@@ -38,6 +39,10 @@ pub fn concurrent_immix_mutator_release<VM: VMBinding>(
     .downcast_mut::<ImmixAllocator<VM>>()
     .unwrap();
     immix_allocator.reset();
+
+    // The spaces of `CommonPlan` are released in this pause, too: reset the allocator of the
+    // non-moving space so that it does not keep allocating into a block that was just swept.
+    common_release_func(mutator, _tls);
 
     // Deactivate SATB
     if current_pause == Pause::Full || current_pause == Pause::FinalMark {
